@@ -144,7 +144,7 @@ def whole_entry(P, R):
     for s in att:
         gs = h.guards(s.bid)
         okp = any(isinstance(g[0], dict) and g[0].get('k') == 'callref' and g[0].get('callee') == 'log_parse_type_sevset' and g[1] == '==' and const_of(g[2]) == 0 for g in gs)
-        okt = any(is_var(g[0]) and g[0].get('t', '').startswith('struct log_type') and g[1] == '!=' for g in gs)
+        okt = any(is_var(g[0]) and g[0].get('t', '').replace('const ', '').startswith('struct log_type') and g[1] == '!=' for g in gs)
         R.ob('C18.GRD.2', okp and okt, s, 'destinations are attached only for an entry whose name parsed completely (result 0, facility found)', key='attach-guard')
         okb = any(g[0].get('k') == 'bittest' and g[1] == '!=' for g in gs if isinstance(g[0], dict))
         R.ob('C18.GRD.2', okb, s, 'a destination is attached for a severity only if the entry\'s set contains it', key='attach-sev')
